@@ -613,6 +613,114 @@ func scenarioNonCanonicalRequestKeys() string {
 	return fmt.Sprintf("SCENARIO prop=C16 code=C16:request-modified name=non-canonical-keys | problems=%q %s\n", strings.Join(problems, " ; "), v)
 }
 
+// C17: a stored file replaced by ANOTHER stored file of the same cache (a ciphertext the backend wrote itself, for another key) is a
+// modified file like any other: it is rejected on read, and the transport does not answer one URI with the response of another
+func scenarioSwappedFiles() []string {
+	var lines []string
+	dir, err := os.MkdirTemp("", "verif-sc-")
+	if err != nil {
+		return nil
+	}
+	defer os.RemoveAll(dir)
+	conn, err := fscache.Open("verif", fscache.WithBaseDir(dir), fscache.WithEncryption(encKey))
+	if err != nil {
+		return nil
+	}
+	files := func() map[string][]byte {
+		m := map[string][]byte{}
+		_ = filepath.Walk(dir, func(p string, info os.FileInfo, err error) error {
+			if err == nil && !info.IsDir() {
+				b, _ := os.ReadFile(p)
+				m[p] = b
+			}
+			return nil
+		})
+		return m
+	}
+	_ = conn.Set("key-a", []byte("value of a"))
+	fa := files()
+	_ = conn.Set("key-b", []byte("value of b, another one"))
+	var pa, pb string
+	for p := range files() {
+		if _, ok := fa[p]; ok {
+			pa = p
+		} else {
+			pb = p
+		}
+	}
+	if pa == "" || pb == "" {
+		return []string{"SCENARIO prop=C17 code=C17:moved-file-accepted name=moved-file | harness: files not found SKIP\n"}
+	}
+	bb, _ := os.ReadFile(pb)
+	_ = os.WriteFile(pa, bb, 0o600)
+	got, gerr := conn.Get("key-a")
+	v := "ok"
+	if gerr == nil {
+		v = "BAD"
+	}
+	lines = append(lines, fmt.Sprintf("SCENARIO prop=C17 code=C17:moved-file-accepted name=moved-file | the file of key-a replaced by the file of key-b: get(key-a) error=%v returned=%q %s\n", gerr != nil, string(got), v))
+	// through the transport: two URIs, their entry files exchanged
+	dir2, err := os.MkdirTemp("", "verif-sc-")
+	if err != nil {
+		return lines
+	}
+	defer os.RemoveAll(dir2)
+	c2, err := fscache.Open("verif", fscache.WithBaseDir(dir2), fscache.WithEncryption(encKey))
+	if err != nil {
+		return lines
+	}
+	dsn := registerConn(c2)
+	defer unregisterConn(dsn)
+	org := &scOrigin{cc: "max-age=600"}
+	rt := httpcache.NewTransport(dsn, httpcache.WithUpstream(org))
+	before := map[string]bool{}
+	scDo(rt, "GET", "http://a.test/public", nil)
+	_ = filepath.Walk(dir2, func(p string, info os.FileInfo, err error) error {
+		if err == nil && !info.IsDir() {
+			before[p] = true
+		}
+		return nil
+	})
+	org.mu.Lock()
+	org.gen = 5 // the other resource has another representation
+	org.mu.Unlock()
+	scDo(rt, "GET", "http://a.test/secret", nil)
+	var first, second []string
+	_ = filepath.Walk(dir2, func(p string, info os.FileInfo, err error) error {
+		if err == nil && !info.IsDir() {
+			if before[p] {
+				first = append(first, p)
+			} else {
+				second = append(second, p)
+			}
+		}
+		return nil
+	})
+	// the entry files are the larger ones (index files are small JSON)
+	larger := func(ps []string) string {
+		best, size := "", int64(-1)
+		for _, p := range ps {
+			if fi, err := os.Stat(p); err == nil && fi.Size() > size {
+				best, size = p, fi.Size()
+			}
+		}
+		return best
+	}
+	ea, eb := larger(first), larger(second)
+	if ea == "" || eb == "" {
+		return append(lines, "SCENARIO prop=C17 code=C17:moved-file-served name=moved-entry | harness: entry files not found SKIP\n")
+	}
+	bsec, _ := os.ReadFile(eb)
+	_ = os.WriteFile(ea, bsec, 0o600)
+	r := scDo(rt, "GET", "http://a.test/public", nil)
+	v = "ok"
+	if strings.Contains(r.body, "-g5") && (r.status == "HIT" || r.status == "STALE") {
+		v = "BAD"
+	}
+	lines = append(lines, fmt.Sprintf("SCENARIO prop=C17 code=C17:moved-file-served name=moved-entry | the entry file of /public replaced by the entry file of /secret: GET /public answered %s %q %s\n", r.status, r.body, v))
+	return lines
+}
+
 func TestScenarios(t *testing.T) {
 	out := os.Getenv("VERIF_OUT")
 	if out == "" {
@@ -623,6 +731,7 @@ func TestScenarios(t *testing.T) {
 	lines = append(lines, scenarioLongKeys(true)...)
 	lines = append(lines, scenarioDanglingRef("en"), scenarioDanglingRef("fr"))
 	lines = append(lines, scenarioPlaintextInEncryptedDir()...)
+	lines = append(lines, scenarioSwappedFiles()...)
 	lines = append(lines, scenarioMultiLineSelecting())
 	lines = append(lines, scenarioUnprintableSelecting())
 	lines = append(lines, scenarioErrorBody(false), scenarioErrorBody(true))
